@@ -163,6 +163,8 @@ class Normalise(ast.NodeTransformer):
       N2  not (a <cmp> b)         ->  a <negated cmp> b   (single comparisons; `not x is None` -> `x is not None`)
       N3  if not c: A else: B     ->  if c: B else: A     (two-armed ifs whose else is not an elif; also conditional expressions);
           likewise `!=`, `not in`, `is not`, `>=`, `<=` tests of two-armed ifs become `==`, `in`, `is`, `<`, `>` with the arms swapped
+      N5  tmp = E; return tmp     ->  return E            (every occurrence of tmp in the function is such an assign-then-return pair)
+      N6  if a: (if b: X)         ->  if a and b: X       (neither if has an else; the inner if is the only statement of the outer one)
     Positions are kept (copy_location), nothing is evaluated."""
 
     def visit_Assign(self, n):
@@ -197,6 +199,14 @@ class Normalise(ast.NodeTransformer):
             t, sw = self._positive(n.test)
             if sw:
                 n.test, n.body, n.orelse = t, n.orelse, n.body
+        # N6  if a: (if b: X)   ->  if a and b: X      (neither has an else; the inner if is the only statement)
+        if os.environ.get("SA_N6", "1") != "0" and not n.orelse and len(n.body) == 1 and isinstance(n.body[0], ast.If) and not n.body[0].orelse:
+            inner = n.body[0]
+            vals = []
+            for t in (n.test, inner.test):
+                vals += t.values if isinstance(t, ast.BoolOp) and isinstance(t.op, ast.And) else [t]
+            n.test = ast.copy_location(ast.BoolOp(op=ast.And(), values=vals), n.test)
+            n.body = inner.body
         return n
 
     def visit_IfExp(self, n):
@@ -212,27 +222,45 @@ class Normalise(ast.NodeTransformer):
         for x in ast.walk(f):
             if isinstance(x, ast.Name):
                 counts[x.id] = counts.get(x.id, 0) + 1
+
+        def pairs_in(b):
+            for i in range(len(b) - 1):
+                st, nx = b[i], b[i + 1]
+                if isinstance(st, ast.Assign) and len(st.targets) == 1 and isinstance(st.targets[0], ast.Name) and isinstance(nx, ast.Return) and isinstance(nx.value, ast.Name) \
+                        and nx.value.id == st.targets[0].id:
+                    yield i, st.targets[0].id
+
+        blocks = [b for node in ast.walk(f) for field in ("body", "orelse", "finalbody") for b in [getattr(node, field, None)]
+                  if isinstance(b, list) and len(b) >= 2 and isinstance(b[0], ast.stmt)]
+        npairs: dict = {}
+        for b in blocks:
+            for _, nm in pairs_in(b):
+                npairs[nm] = npairs.get(nm, 0) + 1
+        # a temp is folded only if EVERY occurrence of the name in the function belongs to such an assign-then-return pair
+        ok = {nm for nm, k in npairs.items() if counts.get(nm) == 2 * k}
+        if not ok:
+            return
         for node in ast.walk(f):
             for field in ("body", "orelse", "finalbody"):
                 b = getattr(node, field, None)
                 if not (isinstance(b, list) and len(b) >= 2 and isinstance(b[0], ast.stmt)):
                     continue
+                idx = {i for i, nm in pairs_in(b) if nm in ok}
+                if not idx:
+                    continue
                 out, i = [], 0
                 while i < len(b):
-                    st = b[i]
-                    nx = b[i + 1] if i + 1 < len(b) else None
-                    if isinstance(st, ast.Assign) and len(st.targets) == 1 and isinstance(st.targets[0], ast.Name) and isinstance(nx, ast.Return) and isinstance(nx.value, ast.Name) \
-                            and nx.value.id == st.targets[0].id and counts.get(nx.value.id) == 2:
-                        out.append(ast.copy_location(ast.Return(value=st.value), st))
+                    if i in idx:
+                        out.append(ast.copy_location(ast.Return(value=b[i].value), b[i]))
                         i += 2
-                        continue
-                    out.append(st)
-                    i += 1
+                    else:
+                        out.append(b[i])
+                        i += 1
                 setattr(node, field, out)
 
     def visit_FunctionDef(self, n):
         self.generic_visit(n)
-        if os.environ.get("SA_N5", "0") == "1":
+        if os.environ.get("SA_N5", "1") != "0":
             self._fold_return_temps(n)
         return n
 
